@@ -22,9 +22,8 @@ TRUSTED = ["harness/h_C09.cpp: the struct family, the run-time pairing of names/
            "tools/props/ports_common.py: the Spec-side expansion of '#N'"]
 ASSUMPTIONS = ["sub-tree names end in '/'; a name paired with the rRecurs callback has exactly one '#' (the callback takes "
                "the index at the first one); no ':' in front of a '#'; 1 <= N",
-               "'enabled by' names a toggle of the same table, or (rRecur / rRecurp ports) a toggle inside the sub-tree "
-               "it disables ('name/toggle'); for enumerated sub-trees the latter is not generated (the source's own "
-               "TODO: the address of the enabling port keeps '#N')",
+               "'enabled by' names a toggle of the same table, or (rRecur / rRecurp / rRecurs ports with a one-component "
+               "name) a toggle inside the sub-tree it disables ('name/toggle', 'name#N/toggle')",
                "the buffer is large enough (walk_ports' own asserts are off in the pinned build type)",
                "dispatch of a reported address is demanded when no concrete sibling name is a prefix of another and "
                "literal characters are not digits (as in C18_lookup)"]
@@ -37,6 +36,7 @@ def lit(s):
 
 bump_shape = [0]
 bump_macro = [0]
+bump_enum_inside = [0]
 ALPH = ["abcdxyz"]       # literal characters of generated names; with digits in 30 % of the trees
 def gen_level_tables(rng, depth, dirty):
     """tables[lv] = list of ports (dicts with an extra 'kind'); every sub-tree
@@ -99,6 +99,13 @@ def gen_level_tables(rng, depth, dirty):
                         continue
                 elif k == 'A':
                     segs = [lit(fresh(strict=True)), ('E', rng.choice([1, 2, 2, 3, 3, 3, 11, 12] if lv == 0 else [1, 2, 3])), lit("/")]
+                    if child_toggles and rng.random() < 0.35:
+                        # 'enabled by' names a port inside the ENUMERATED sub-tree it disables: "name#N/toggle"
+                        tg = rng.choice(child_toggles)['name'].split(b":")[0]
+                        meta = pc.render_meta([(b"enabled by", pc.render_segs(segs) + tg), (b"doc", b"d")])
+                        t.append(pc.mk_port(segs, b"", meta, tables[lv + 1], kind=k))
+                        bump_enum_inside[0] += 1
+                        continue
                 elif rng.random() < 0.55:
                     # a multi-component name under a MACRO recursion callback: X rRecurCb(sub),
                     # Y rRecurpCb(subp), Z rRecursCb(arr,12) with exactly one '#'
@@ -280,6 +287,7 @@ def gen(rng, tier, dist):
         bump(dist, "depth-%d" % depth)
         bump(dist, "subtree-name-prefix-of-its-toggle", bump_shape[0]); bump_shape[0] = 0
         bump(dist, "multi-component-name-under-macro-callback", bump_macro[0]); bump_macro[0] = 0
+        bump(dist, "enabled-by-inside-enumerated-subtree", bump_enum_inside[0]); bump_enum_inside[0] = 0
         flat = [p for tb in tabs for p in tb]
         bump(dist, "trees-with-subtree-N>=11", 1 if any(p['sub'] is not None and any(k == 'E' and v >= 11 for k, v in p['segs']) for p in flat) else 0)
         bump(dist, "trees-with-leaf-two-hash", 1 if any(p['sub'] is None and pc.n_hash(p['segs']) >= 2 for p in flat) else 0)
